@@ -428,7 +428,11 @@ pub fn feed_reply_raw(spec: &ReqSpec, bytes: &[u8]) -> Fed {
             || text.contains(&format!("message-id='{id_b}'"))
             || text.contains(&format!("message-id = \"{id_b}\""));
         if matches!(out, crate::ops::Outcome::Stuck) {
-            if targets_b {
+            // A keeps waiting. That is right when the bytes were a reply to B (A has not been
+            // answered at all). Decided by observation, not by searching the text (a libFuzzer
+            // input wrote `message-id<100 tabs>='1'`, which is B's id in legal XML): if B resolves
+            // now, without its own reply having been pushed, the message was routed to B.
+            if targets_b || drive(fut_b).is_some() {
                 return Fed::Returned {
                     parsed_beyond_root: true,
                 };
